@@ -291,7 +291,7 @@ pub fn generate(kind: &str, tier: &str, seed: u64, shard: u64, nshards: u64, pat
     quiet_panics();
     let mut t = Trace::create(path);
     let mut rng = Rng::new(seed ^ shard.wrapping_mul(0xA24BAED4) ^ if kind == "enc" { 5 } else { 6 });
-    let scale = if tier == "thorough" { 80 } else { 2 };
+    let scale = if tier == "thorough" { 300 } else { 2 };
     let mut cases = 0usize;
     match kind {
         "enc" => {
